@@ -88,8 +88,10 @@ func (p *pool) Wait() { p.wg.Wait() }
 
 type stateEntry struct {
 	sn        *snapshot
-	acked     []int // universe indices, sorted
-	inflight  int   // universe index or -1
+	present   []int // universe indices, sorted: certainly present (acknowledged and not removed)
+	unc       []int // touched by the operation in flight at the crash
+	removed   []int // removed by an acknowledged remove of the live history
+	nAcked    int   // acknowledged operations (a prefix of the history)
 	ks        []int64
 	Phase     string
 	wholeRows map[blob.Ref]bool // whole-file rows durably written
@@ -105,6 +107,8 @@ type caseCtx struct {
 	N      int64         // lower calls of run A (after construction)
 	logA   []inject.Call // run A's calls, index 0 = first call after construction
 	labels []string
+	opOf   []int // op index of every call of run A
+	opStartA []int64
 	writes int
 	zipsA  int
 	mu     sync.Mutex
@@ -114,8 +118,8 @@ type caseCtx struct {
 }
 
 type execResult struct {
-	acked    map[int]bool
-	inflight int
+	nAcked   int // operations acknowledged: Ops[:nAcked]
+	inflight int // index of the operation that failed at the crash, or -1
 	log      []inject.Call
 	calls    int64
 	lw       *lower
@@ -131,12 +135,16 @@ func classify(w *world, logA []inject.Call, opStart []int64, ops []upload) []str
 		if oi+1 < len(opStart) {
 			hi = opStart[oi+1]
 		}
-		isSchema := w.IsSchema[w.Universe[ops[oi].Blob].Ref]
+		isSchema := !ops[oi].isRemove() && w.IsSchema[w.Universe[ops[oi].Blob].Ref]
 		inPack := false
 		for i := lo; i < hi; i++ {
 			c := logA[i]
 			var l string
 			switch {
+			case ops[oi].isRemove() && c.Write:
+				l = "client-remove-write"
+			case ops[oi].isRemove():
+				l = "client-remove-read"
 			case c.Layer == "large" && c.Op == "ReceiveBlob":
 				l = "zip-store"
 			case c.Layer == "meta" && c.Op == "CommitBatch":
@@ -166,10 +174,14 @@ func classify(w *world, logA []inject.Call, opStart []int64, ops []upload) []str
 // execute uploads the history into a fresh store.  freezeAt >= 0 plans a fail-stop at that
 // lower call (0 = first call after construction).  live != nil is called after every
 // successful lower-layer write with the current acknowledged set.
-func (c *caseCtx) execute(freezeAt int64, live func(inst *instance, call inject.Call, acked map[int]bool, inflight int, opIdx int)) (res *execResult, opStart []int64, err error) {
-	lw := newLower()
+func (c *caseCtx) execute(freezeAt int64, live func(inst *instance, call inject.Call, nAcked, inflight int)) (res *execResult, opStart []int64, err error) {
+	lw, err := newLower(c.w.Spec.Lower)
+	if err != nil {
+		return nil, nil, fmt.Errorf("lower layers: %w", err)
+	}
 	inst, err := open(lw, c.w.Spec.MaxZip)
 	if err != nil {
+		lw.release()
 		return nil, nil, fmt.Errorf("constructing an empty blobpacked: %w", err)
 	}
 	defer inst.close()
@@ -178,59 +190,85 @@ func (c *caseCtx) execute(freezeAt int64, live func(inst *instance, call inject.
 	if freezeAt >= 0 {
 		inst.plan.FaultAt(base+freezeAt, inject.Freeze)
 	}
-	res = &execResult{acked: map[int]bool{}, inflight: -1, lw: lw}
-	cur := -1
+	res = &execResult{inflight: -1, lw: lw}
 	curOp := -1
+	var inRemove atomic.Bool
 	runaway := inst.guardRunaway(c.w)
+	audit := func(call inject.Call) {
+		inst.auditing.Store(true)
+		defer inst.auditing.Store(false)
+		call.Index -= base
+		live(inst, call, res.nAcked, curOp)
+	}
 	if live != nil {
 		inst.plan.After = func(call inject.Call) {
-			inst.auditing.Store(true)
-			defer inst.auditing.Store(false)
-			call.Index -= base
-			acked := map[int]bool{}
-			for k := range res.acked {
-				acked[k] = true
+			if inRemove.Load() {
+				// RemoveBlobs makes its lower calls concurrently: an audit from inside one of
+				// them would race with the others; the store is audited when the remove returns
+				return
 			}
-			live(inst, call, acked, cur, curOp)
+			audit(call)
 		}
 	}
 	ctx := context.Background()
 	for oi, op := range c.w.Ops {
 		opStart = append(opStart, inst.plan.Calls()-base)
-		b := c.w.Universe[op.Blob]
-		cur, curOp = op.Blob, oi
+		curOp = oi
 		var rerr error
-		ok, pmsg := protect(300*time.Second, func() {
-			_, rerr = blobserver.Receive(ctx, inst.s, b.Ref, bytes.NewReader(b.Data))
-		})
-		if !ok {
-			return nil, nil, fmt.Errorf("hang: receive of %v (op %d) did not return within 300s", b.Ref, oi)
-		}
-		if pmsg != "" {
-			lw.release()
-			return nil, nil, fmt.Errorf("panic: receive of %v (op %d): %s", b.Ref, oi, pmsg)
-		}
-		if n := runaway.Load(); n > 0 {
-			lw.release()
-			return nil, nil, fmt.Errorf("runaway: the pack triggered by the upload of %v (op %d) stored %d zips for a file of %d chunks and was still going (stopped by the harness)", b.Ref, oi, n, c.w.maxChunks())
+		var what string
+		if op.isRemove() {
+			refs := make([]blob.Ref, len(op.Remove))
+			for i, ui := range op.Remove {
+				refs[i] = c.w.Universe[ui].Ref
+			}
+			what = fmt.Sprintf("remove of %v", refs)
+			inRemove.Store(true)
+			ok, pmsg := protect(300*time.Second, func() { rerr = inst.s.RemoveBlobs(ctx, refs) })
+			inRemove.Store(false)
+			if !ok {
+				return nil, nil, fmt.Errorf("hang: %s (op %d) did not return within 300s", what, oi)
+			}
+			if pmsg != "" {
+				lw.release()
+				return nil, nil, fmt.Errorf("panic: %s (op %d): %s", what, oi, pmsg)
+			}
+		} else {
+			b := c.w.Universe[op.Blob]
+			what = fmt.Sprintf("receive of %v", b.Ref)
+			ok, pmsg := protect(300*time.Second, func() {
+				_, rerr = blobserver.Receive(ctx, inst.s, b.Ref, bytes.NewReader(b.Data))
+			})
+			if !ok {
+				return nil, nil, fmt.Errorf("hang: %s (op %d) did not return within 300s", what, oi)
+			}
+			if pmsg != "" {
+				lw.release()
+				return nil, nil, fmt.Errorf("panic: %s (op %d): %s", what, oi, pmsg)
+			}
+			if n := runaway.Load(); n > 0 {
+				lw.release()
+				return nil, nil, fmt.Errorf("runaway: the pack triggered by the upload of %v (op %d) stored %d zips for a file of %d chunks and was still going (stopped by the harness)", b.Ref, oi, n, c.w.maxChunks())
+			}
 		}
 		if rerr == nil {
-			res.acked[op.Blob] = true
+			res.nAcked = oi + 1
+			if op.isRemove() && live != nil && !inst.plan.Frozen() {
+				curOp = -1
+				audit(inject.Call{Index: inst.plan.Calls(), Layer: "client", Op: "RemoveBlobs", Write: true})
+			}
 		} else {
 			if !inst.plan.Frozen() {
 				lw.release()
-				return nil, nil, fmt.Errorf("receive of %v (op %d) failed without any injected fault: %v", b.Ref, oi, rerr)
+				return nil, nil, fmt.Errorf("%s (op %d) failed without any injected fault: %v", what, oi, rerr)
 			}
-			if !res.acked[op.Blob] {
-				res.inflight = op.Blob
-			}
+			res.inflight = oi
 		}
 		if inst.plan.Frozen() {
 			res.frozen = true
 			break
 		}
 	}
-	cur = -1
+	curOp = -1
 	inst.plan.After = nil
 	res.calls = inst.plan.Calls() - base
 	res.log = inst.plan.Log()
@@ -271,22 +309,28 @@ func (w *world) maxChunks() int {
 	return n
 }
 
+func sortedKeys(m map[int]bool) []int {
+	out := make([]int, 0, len(m))
+	for i := range m {
+		out = append(out, i)
+	}
+	sort.Ints(out)
+	return out
+}
+
 func (c *caseCtx) addState(res *execResult, k int64) error {
 	sn, err := res.lw.snap(c.w, &c.zp)
 	if err != nil {
 		return err
 	}
-	var acked []int
-	for i := range res.acked {
-		acked = append(acked, i)
-	}
-	sort.Ints(acked)
-	key := fmt.Sprintf("%s|%v|%d", sn.key, acked, res.inflight)
+	pm, um, rm := c.w.model(res.nAcked, res.inflight)
+	present, unc, removed := sortedKeys(pm), sortedKeys(um), sortedKeys(rm)
+	key := fmt.Sprintf("%s|%v|%v|%v", sn.key, present, unc, removed)
 	c.mu.Lock()
 	defer c.mu.Unlock()
 	st := c.states[key]
 	if st == nil {
-		st = &stateEntry{sn: sn, acked: acked, inflight: res.inflight, wholeRows: map[blob.Ref]bool{}}
+		st = &stateEntry{sn: sn, present: present, unc: unc, removed: removed, nAcked: res.nAcked, wholeRows: map[blob.Ref]bool{}}
 		for _, kv := range sn.Meta {
 			if strings.HasPrefix(kv[0], "w:") && !strings.Contains(kv[0][2:], ":") {
 				if br, ok := blob.Parse(kv[0][2:]); ok {
@@ -309,16 +353,20 @@ func caseReplay(c *caseCtx, extra map[string]any) map[string]any {
 	return m
 }
 
+var packWrite = map[string]bool{"zip-store": true, "meta-batch": true, "loose-deletion": true, "whole-row": true}
+
 // runA is the no-fault run with live audits at every intermediate step.
 func (c *caseCtx) runA() {
 	r := c.r
 	w := c.w
 	var largeBeforeDup []blob.Ref
 	wholeDone := map[blob.Ref]bool{}
-	live := func(inst *instance, call inject.Call, acked map[int]bool, inflight int, opIdx int) {
+	live := func(inst *instance, call inject.Call, nAcked, inflight int) {
 		// label of the write that just completed
 		label := "upload-write"
 		switch {
+		case call.Layer == "client":
+			label = "client-remove"
 		case call.Layer == "large" && call.Op == "ReceiveBlob":
 			label = "zip-store"
 		case call.Layer == "meta" && call.Op == "CommitBatch":
@@ -331,16 +379,27 @@ func (c *caseCtx) runA() {
 				wholeDone[br] = true
 			}
 		}
+		if w.DupStart >= 0 && inflight >= w.DupStart && largeBeforeDup == nil {
+			largeBeforeDup = append([]blob.Ref{}, inst.lw.largeRefs()...)
+		}
+		if w.Spec.LiveAudit == "pack-writes" && !packWrite[label] {
+			r.Count("live_step_audits_skipped", 1)
+			return
+		}
 		st := &site{r: r, w: w, Variant: "live", Phase: "after-" + label, Stage: "live", K: call.Index, lw: inst.lw, zc: &c.zc}
+		pm, um, rm := w.model(nAcked, inflight)
 		present := map[blob.Ref][]byte{}
-		for i := range acked {
+		for i := range pm {
 			present[w.Universe[i].Ref] = w.Universe[i].Data
 		}
-		unc := map[blob.Ref]bool{}
-		if inflight >= 0 && !acked[inflight] {
-			unc[w.Universe[inflight].Ref] = true
+		unc, removed := map[blob.Ref]bool{}, map[blob.Ref]bool{}
+		for i := range um {
+			unc[w.Universe[i].Ref] = true
 		}
-		ck := st.checker(inst.s, present, unc, nil)
+		for i := range rm {
+			removed[w.Universe[i].Ref] = true
+		}
+		ck := st.checker(inst.s, present, unc, removed)
 		must := map[blob.Ref]bool{}
 		for k := range wholeDone {
 			must[k] = true
@@ -349,9 +408,6 @@ func (c *caseCtx) runA() {
 		st.clientAudit(ck, rng, must)
 		r.Count("live_step_audits", 1)
 		r.Note("live_step", "after-"+label)
-		if w.DupStart >= 0 && opIdx >= w.DupStart && largeBeforeDup == nil {
-			largeBeforeDup = append([]blob.Ref{}, refsOf(inst.lw.large)...)
-		}
 	}
 	var res *execResult
 	var opStart []int64
@@ -376,7 +432,18 @@ func (c *caseCtx) runA() {
 	}
 	c.N = res.calls
 	c.logA = res.log
+	c.opStartA = opStart
 	c.labels = classify(w, c.logA, opStart, w.Ops)
+	c.opOf = make([]int, len(c.logA))
+	for oi := range w.Ops {
+		hi := int64(len(c.logA))
+		if oi+1 < len(opStart) {
+			hi = opStart[oi+1]
+		}
+		for i := opStart[oi]; i < hi; i++ {
+			c.opOf[i] = oi
+		}
+	}
 	for _, cl := range c.logA {
 		if cl.Write {
 			c.writes++
@@ -386,6 +453,25 @@ func (c *caseCtx) runA() {
 	st := &site{r: r, w: w, Variant: "live", Phase: "complete", Stage: "live", K: c.N, lw: res.lw, zc: &c.zc}
 	_, c.zipsA = st.zipAudit()
 	f0 := w.Files[0]
+	// zips per packed file
+	zipsOfWhole := map[blob.Ref]int{}
+	for _, zr := range res.lw.largeRefs() {
+		if zi := st.zipOf(zr); zi.parsed {
+			zipsOfWhole[zi.Whole]++
+		}
+	}
+	for _, f := range w.Files {
+		if !lateOrder(w.orderOf(f)) {
+			continue
+		}
+		// no upload of this file's schema blob saw every blob of the file: nothing to pack, and
+		// the live and restart audits judge that the attempts had no client effect
+		if zipsOfWhole[f.WholeRef] == 0 {
+			r.Note("incomplete_at_last_schema", w.orderOf(f))
+		} else {
+			r.Note("incomplete_at_last_schema", "packed-all-the-same:"+w.orderOf(f))
+		}
+	}
 	switch {
 	case len(f0.Content) < packThreshold:
 		if c.zipsA > 0 {
@@ -416,9 +502,47 @@ func (c *caseCtx) runA() {
 		if truncations(w, c.logA, opStart) > 0 {
 			r.Note("file_class", "truncate-retry")
 		}
+		if w.Spec.Removes != "" {
+			r.Note("live_removes", w.Spec.Removes)
+		}
+		if w.Spec.Lower != "" {
+			r.Note("lower_layers", w.Spec.Lower)
+		}
+		// several packed files in one store
+		zipsOf := map[blob.Ref]map[blob.Ref]bool{} // logical blob -> wholes whose zips contain it
+		wholes := map[blob.Ref]bool{}
+		for _, zr := range res.lw.largeRefs() {
+			zi := st.zipOf(zr)
+			if !zi.parsed {
+				continue
+			}
+			wholes[zi.Whole] = true
+			for br := range zi.Contained {
+				if zipsOf[br] == nil {
+					zipsOf[br] = map[blob.Ref]bool{}
+				}
+				zipsOf[br][zi.Whole] = true
+			}
+			if w.Spec.MaxZip == 0 && zi.Size > blobSizeLimit-(1<<20) {
+				r.Note("zip_shape", "within-1MiB-of-the-16MiB-limit")
+			}
+		}
+		if len(wholes) >= 2 {
+			r.Note("file_class", "several-packed-files")
+			shared := 0
+			for br, ws := range zipsOf {
+				if len(ws) >= 2 && !w.IsSchema[br] {
+					shared++
+				}
+			}
+			if shared > 0 {
+				r.Note("file_class", "shared-prefix-files")
+				r.Count("chunks_in_zips_of_two_files", shared)
+			}
+		}
 	}
 	if w.DupStart >= 0 && c.zipsA > 0 {
-		after := refsOf(res.lw.large)
+		after := res.lw.largeRefs()
 		if largeBeforeDup == nil {
 			largeBeforeDup = after
 		}
@@ -428,7 +552,12 @@ func (c *caseCtx) runA() {
 			r.Note("file_class", "duplicate-file")
 		}
 	}
-	r.Note("upload_order", w.Spec.Order)
+	for _, f := range w.Files {
+		r.Note("upload_order", w.orderOf(f))
+	}
+	if w.Spec.Interleave != "" {
+		r.Note("upload_order", "interleave:"+w.Spec.Interleave)
+	}
 	defer res.lw.release()
 	if err := c.addState(res, c.N); err != nil {
 		r.Inconclusive(fmt.Sprintf("%s: %v", w.Spec.ID, err))
@@ -461,10 +590,36 @@ func (c *caseCtx) crashRun(k int64) {
 		return
 	}
 	// identical replay?
+	// RemoveBlobs issues its lower calls concurrently: inside a client remove the k-th call of
+	// the replay may be another call of the same remove than in run A.  It is a crash point of
+	// that remove all the same; the calls before the remove must be identical.
+	upto := k
+	if op := c.w.Ops[c.opOf[k]]; op.isRemove() {
+		upto = c.opStartA[c.opOf[k]] - 1
+		r.Count("crash_points_inside_concurrent_remove", 1)
+	}
 	diverged := int64(len(res.log)) <= k
-	for i := int64(0); !diverged && i <= k; i++ {
-		a, b := c.logA[i], res.log[i]
-		if a.Layer != b.Layer || a.Op != b.Op || a.Arg != b.Arg {
+	sig := func(a inject.Call) string { return a.Layer + " " + a.Op + " " + a.Arg }
+	for i := int64(0); !diverged && i <= upto; i++ {
+		if oi := c.opOf[i]; c.w.Ops[oi].isRemove() {
+			// an earlier, completed remove: the same calls in any order
+			lo, hi := c.opStartA[oi], int64(len(c.logA))
+			if oi+1 < len(c.opStartA) {
+				hi = c.opStartA[oi+1]
+			}
+			var x, y []string
+			for j := lo; j < hi; j++ {
+				x, y = append(x, sig(c.logA[j])), append(y, sig(res.log[j]))
+			}
+			sort.Strings(x)
+			sort.Strings(y)
+			if fmt.Sprint(x) != fmt.Sprint(y) {
+				diverged = true
+			}
+			i = hi - 1
+			continue
+		}
+		if sig(c.logA[i]) != sig(res.log[i]) {
 			diverged = true
 		}
 	}
@@ -551,7 +706,8 @@ func (c *caseCtx) auditState(st *stateEntry, variant string, deep bool) {
 	s := &site{r: r, w: w, Variant: variant, Phase: st.Phase, Stage: "restart", K: st.ks[0]}
 	s.zc = &c.zc
 	s.extra = func() map[string]any {
-		return map[string]any{"crash_points_with_this_state": st.ks, "acked_uploads": len(st.acked), "small_blobs": len(st.sn.Small), "zips": len(st.sn.Large), "meta_rows": len(st.sn.Meta)}
+		return map[string]any{"crash_points_with_this_state": st.ks, "acked_ops": st.nAcked, "present_blobs": len(st.present), "uncertain_blobs": len(st.unc), "removed_blobs": len(st.removed),
+			"small_blobs": len(st.sn.Small), "zips": len(st.sn.Large), "meta_rows": len(st.sn.Meta)}
 	}
 	rng := rand.New(rand.NewSource(seedOf(w.Spec.Seed, st.ks[0], variant)))
 	lw, err := st.sn.materialise(w, &c.zp, wipe)
@@ -562,12 +718,12 @@ func (c *caseCtx) auditState(st *stateEntry, variant string, deep bool) {
 	s.lw = lw
 	defer lw.release()
 	present := map[blob.Ref][]byte{}
-	for _, i := range st.acked {
+	for _, i := range st.present {
 		present[w.Universe[i].Ref] = w.Universe[i].Data
 	}
 	unc := map[blob.Ref]bool{}
-	if st.inflight >= 0 {
-		unc[w.Universe[st.inflight].Ref] = true
+	for _, i := range st.unc {
+		unc[w.Universe[i].Ref] = true
 	}
 
 	// stage 1: restart
@@ -582,11 +738,36 @@ func (c *caseCtx) auditState(st *stateEntry, variant string, deep bool) {
 		r.Note("recovery_with_zips", variant)
 	}
 	removed := map[blob.Ref]bool{}
+	liveResurrect := map[blob.Ref]bool{}
+	for _, i := range st.removed {
+		ref := w.Universe[i].Ref
+		if recovering && contained[ref] {
+			// removed in the live history but still inside a zip: removals are not recorded
+			// in the zips, a recovery may bring the blob back (same rule as in stage 3)
+			unc[ref] = true
+			liveResurrect[ref] = true
+			continue
+		}
+		removed[ref] = true
+	}
+	if len(st.removed) > 0 {
+		r.Note("restart_after_live_remove", variant)
+	}
 	ck := s.checker(inst.s, present, unc, removed)
 	s.clientAudit(ck, rng, st.wholeRows)
 	if ck.Dead {
 		inst.close()
 		return
+	}
+
+	if w.big() {
+		// tens of MiB per audit: the later stages only for the complete pack, without re-upload
+		deep = false
+		if st.Phase != "complete" {
+			inst.close()
+			r.Count("big_file_restart_audits", 1)
+			return
+		}
 	}
 
 	// stage 2: removes of loose and packed blobs
@@ -609,7 +790,29 @@ func (c *caseCtx) auditState(st *stateEntry, variant string, deep bool) {
 		}
 		return from
 	}
-	loose, packed = pick(loose, 2), pick(packed, 3)
+	loose = pick(loose, 2)
+	if zrefs := lw.largeRefs(); len(zrefs) > 0 && rng.Intn(3) == 0 {
+		// every blob that one zip contains
+		zi := s.zipOf(zrefs[rng.Intn(len(zrefs))])
+		var all []sto.Blob
+		for _, b := range packed {
+			if zi.Contained[b.Ref] {
+				all = append(all, b)
+			}
+		}
+		if len(all) > 0 && len(all) == len(zi.Contained) {
+			if rng.Intn(2) == 0 {
+				// ... but one, which must stay served
+				all = all[:len(all)-1]
+				r.Note("removes", "all-but-one-blob-of-a-zip")
+			} else {
+				r.Note("removes", "all-blobs-of-a-zip")
+			}
+		}
+		packed = all
+	} else {
+		packed = pick(packed, 3)
+	}
 	inZip := map[blob.Ref]bool{}
 	if len(loose) > 0 {
 		ck.Remove(loose)
@@ -642,6 +845,12 @@ func (c *caseCtx) auditState(st *stateEntry, variant string, deep bool) {
 	removed3 := copySet(removed)
 	tolerated := map[blob.Ref]bool{}
 	if recovering {
+		for ref := range liveResurrect {
+			if _, p := present3[ref]; !p {
+				unc3[ref] = true
+				delete(removed3, ref)
+			}
+		}
 		// removals are not recorded in the zips: a recovery may bring removed packed blobs back
 		for ref := range inZip {
 			if _, p := present3[ref]; !p {
@@ -671,6 +880,9 @@ func (c *caseCtx) auditState(st *stateEntry, variant string, deep bool) {
 	runaway := inst.guardRunaway(w)
 	ck3.Tolerate = false
 	for _, op := range w.Ops {
+		if op.isRemove() {
+			continue // the client uploads everything; it does not repeat its removes
+		}
 		ck3.Receive(w.Universe[op.Blob])
 		delete(removed3, w.Universe[op.Blob].Ref)
 		if n := runaway.Load(); n > 0 {
@@ -733,8 +945,94 @@ func genCases(r *ev.Run) []caseSpec {
 	out[len(out)-1].TruncSearch = "two-chunk"
 	add("truncate-retry", 500*kib+rng.Intn(500*kib), "schema-last", fileSpec{Name: "ptrunc.bin", Size: 1300*kib + rng.Intn(400*kib), Content: "periodic", Period: 66*kib + rng.Intn(300*kib)})
 	out[len(out)-1].TruncSearch = "any"
+	mib := 1 << 20
+	// --- round 3: more of what the statement quantifies over
+	// several distinct packed files in one store; the second extends the first (shared chunks)
+	add("shared-prefix", 0, "schema-last",
+		fileSpec{Name: "base.bin", Size: 600*kib + rng.Intn(200*kib), Content: "random"},
+		fileSpec{Name: "base-extended.bin", Size: 150*kib + rng.Intn(200*kib), Content: "ext:base.bin"})
+	add("two-files", 0, "schema-middle",
+		fileSpec{Name: "one.bin", Size: 550*kib + rng.Intn(100*kib), Content: "random"},
+		fileSpec{Name: "two.bin", Size: 550*kib + rng.Intn(100*kib), Content: "random"})
+	out[len(out)-1].Loose = 2
+	// the last schema upload does not see every blob of the file
+	add("incomplete", 0, []string{"chunk-after-last-schema", "chunk-missing", "schema-only-early"}[rng.Intn(3)],
+		fileSpec{Name: "late.bin", Size: 560*kib + rng.Intn(100*kib), Content: "random"})
+	// client removes inside the live history
+	add("live-remove", 0, "schema-last", fileSpec{Name: "rm-after.bin", Size: 560*kib + rng.Intn(100*kib), Content: "random"})
+	out[len(out)-1].Removes = "after-pack"
+	add("live-remove", 0, "schema-last", fileSpec{Name: "rm-before.bin", Size: 540*kib + rng.Intn(60*kib), Content: "random"})
+	out[len(out)-1].Removes = []string{"chunk-before-schema", "chunk-before-schema-reupload"}[rng.Intn(2)]
+	// the production zip size limit: no forced maximum, a file that needs two zips
+	add("production-limit", 0, "schema-last", fileSpec{Name: "seventeen.bin", Size: 16*mib + 600*kib + rng.Intn(2*mib), Content: "random"})
+	out[len(out)-1].Crash, out[len(out)-1].LiveAudit, out[len(out)-1].Loose = "pack-writes", "pack-writes", 2
+	// lower layers on disk
+	add("disk-lower", 0, "schema-last", fileSpec{Name: "on-disk.bin", Size: 530*kib + rng.Intn(40*kib), Content: "random"})
+	out[len(out)-1].Lower, out[len(out)-1].Loose = "disk", 2
 	if !r.Thorough() {
 		return out
+	}
+	lateOrders := []string{"chunk-after-last-schema", "chunk-missing", "schema-only-early"}
+	for i, o := range lateOrders {
+		mz := []int{0, 1 << 20, 0}[i]
+		add("incomplete", mz, o, fileSpec{Name: fmt.Sprintf("late%d.bin", i), Size: 600*kib + rng.Intn(900*kib), Content: "random"})
+	}
+	// ... on the second of two files that share a prefix (the first is packed)
+	add("incomplete", 0, "schema-last",
+		fileSpec{Name: "lbase.bin", Size: 600 * kib, Content: "random"},
+		fileSpec{Name: "lbase-ext.bin", Size: 200 * kib, Content: "ext:lbase.bin", Order: lateOrders[rng.Intn(2)]})
+	for i := 0; i < 4; i++ { // shared prefix: sequential and interleaved, single and multi zip
+		mz := []int{0, 0, 1 << 20, 1<<20 + 200*kib}[i]
+		sz := 600*kib + rng.Intn(300*kib)
+		if mz > 0 {
+			sz = mz + mz/2 + rng.Intn(mz/2)
+		}
+		n1 := fmt.Sprintf("pre%d.bin", i)
+		add("shared-prefix", mz, orders[i%3],
+			fileSpec{Name: n1, Size: sz, Content: "random"},
+			fileSpec{Name: fmt.Sprintf("pre%d-longer.bin", i), Size: 100*kib + rng.Intn(500*kib), Content: "ext:" + n1})
+		if i%2 == 1 {
+			out[len(out)-1].Interleave = "chunks-first"
+		}
+	}
+	add("shared-prefix", 0, "schema-last", // three generations of one growing file
+		fileSpec{Name: "gen0.log", Size: 520*kib + rng.Intn(100*kib), Content: "random"},
+		fileSpec{Name: "gen1.log", Size: 64*kib + rng.Intn(100*kib), Content: "ext:gen0.log"},
+		fileSpec{Name: "gen2.log", Size: 64*kib + rng.Intn(100*kib), Content: "ext:gen1.log"})
+	for i := 0; i < 3; i++ { // unrelated files
+		mz := []int{0, 1 << 20, 0}[i]
+		add("two-files", mz, orders[(i+1)%3],
+			fileSpec{Name: fmt.Sprintf("u%d-a.bin", i), Size: 600*kib + rng.Intn(900*kib), Content: "random"},
+			fileSpec{Name: fmt.Sprintf("u%d-b.bin", i), Size: 600*kib + rng.Intn(900*kib), Content: []string{"random", "random", "periodic"}[i], Period: 100 * kib})
+		if i == 2 {
+			out[len(out)-1].Interleave = "chunks-first"
+		}
+	}
+	for i, rm := range []string{"after-pack", "chunk-before-schema", "chunk-before-schema-reupload", "after-pack", "chunk-before-schema"} {
+		mz := []int{0, 0, 0, 1 << 20, 1 << 20}[i]
+		sz := 560*kib + rng.Intn(300*kib)
+		if mz > 0 {
+			sz = 2*mz + rng.Intn(mz)
+		}
+		add("live-remove", mz, orders[i%3], fileSpec{Name: fmt.Sprintf("rm%d.bin", i), Size: sz, Content: "random"})
+		out[len(out)-1].Removes = rm
+	}
+	add("live-remove", 0, "schema-last", // removes in a store that holds two files sharing chunks
+		fileSpec{Name: "rmbase.bin", Size: 600 * kib, Content: "random"},
+		fileSpec{Name: "rmbase-ext.bin", Size: 150 * kib, Content: "ext:rmbase.bin"})
+	out[len(out)-1].Removes = "after-pack"
+	// the production limit again: three zips
+	add("production-limit", 0, "schema-middle", fileSpec{Name: "thirtyfour.bin", Size: 33*mib + rng.Intn(2*mib), Content: "random"})
+	out[len(out)-1].Crash, out[len(out)-1].LiveAudit, out[len(out)-1].Loose = "pack-writes", "pack-writes", 2
+	for i := 0; i < 2; i++ { // disk lower layers: multi-zip and two files
+		if i == 0 {
+			add("disk-lower", 1<<20, "schema-middle", fileSpec{Name: "on-disk-multi.bin", Size: 2*mib + rng.Intn(mib), Content: "random"})
+		} else {
+			add("disk-lower", 0, "schema-first",
+				fileSpec{Name: "dbase.bin", Size: 560 * kib, Content: "random"},
+				fileSpec{Name: "dbase-ext.bin", Size: 120 * kib, Content: "ext:dbase.bin"})
+		}
+		out[len(out)-1].Lower, out[len(out)-1].Loose = "disk", 2
 	}
 	// thorough tier
 	add("over-threshold", 0, "schema-first", fileSpec{Name: "exact.bin", Size: packThreshold, Content: "random"})
@@ -837,6 +1135,10 @@ func run(r *ev.Run) {
 			cmu.Unlock()
 			for k := int64(0); k < c.N; k++ {
 				k := k
+				if cs.Crash == "pack-writes" && !packWrite[c.labels[k]] {
+					r.Count("crash_points_not_enumerated", 1)
+					continue
+				}
 				p.Go(func() { c.crashRun(k) })
 			}
 		})
@@ -903,7 +1205,20 @@ func run(r *ev.Run) {
 	r.Require("recovery_with_zips", "none", "fast", "full", "zips-alone-fast", "zips-alone-full")
 	r.Require("crash_phase", "zip-store", "meta-batch", "loose-deletion", "whole-row", "upload-write", "pack-read")
 	r.Require("live_step", "after-zip-store", "after-meta-batch", "after-loose-deletion", "after-whole-row")
-	r.Require("removes", "loose", "packed")
+	r.Require("removes", "loose", "packed", "all-blobs-of-a-zip", "all-but-one-blob-of-a-zip")
+	// round 3 families
+	r.Require("file_class", "several-packed-files", "shared-prefix-files")
+	r.Require("live_removes", "after-pack")
+	r.Require("crash_phase", "client-remove-write", "client-remove-read")
+	r.Require("live_step", "after-client-remove")
+	r.Require("restart_after_live_remove", "none", "fast", "full", "zips-alone-fast", "zips-alone-full")
+	r.Require("zip_shape", "within-1MiB-of-the-16MiB-limit")
+	r.Require("lower_layers", "disk")
+	if r.Thorough() {
+		r.Require("incomplete_at_last_schema", "chunk-after-last-schema", "chunk-missing", "schema-only-early")
+		r.Require("live_removes", "chunk-before-schema", "chunk-before-schema-reupload")
+		r.Require("upload_order", "interleave:chunks-first")
+	}
 	r.Require("zip_shape", "manifest-with-repeated-chunk", "part>0")
 }
 
@@ -918,11 +1233,26 @@ func truncations(w *world, log []inject.Call, opStart []int64) int {
 	for _, c := range f.Chunks {
 		occ[c.Ref.String()]++
 	}
-	last := -1 // last upload of the file schema blob
+	last := -1 // the upload of the file schema blob that packed (else the last one)
+	packing := false
 	for oi, op := range w.Ops {
-		if w.Universe[op.Blob].Ref == f.FileRef && oi < len(opStart) {
+		if op.isRemove() || w.Universe[op.Blob].Ref != f.FileRef || oi >= len(opStart) {
+			continue
+		}
+		lo, hi := opStart[oi], int64(len(log))
+		if oi+1 < len(opStart) {
+			hi = opStart[oi+1]
+		}
+		stores := false
+		for _, c := range log[lo:hi] {
+			if c.Layer == "large" && c.Op == "ReceiveBlob" {
+				stores = true
+			}
+		}
+		if stores || !packing {
 			last = oi
 		}
+		packing = packing || stores
 	}
 	if last < 0 {
 		return 0
@@ -963,9 +1293,9 @@ func (c *caseCtx) searchTrunc() {
 		defer res.lw.release()
 		type ps struct{ part, size int }
 		var parts []ps
-		for _, zr := range refsOf(res.lw.large) {
-			d, _ := res.lw.large.BlobContents(zr)
-			zi := validateZip(w, zr, []byte(d), mz)
+		for _, zr := range res.lw.largeRefs() {
+			d, _ := res.lw.largeData(zr)
+			zi := validateZip(w, zr, d, mz)
 			for _, p := range zi.Problems {
 				r.Violation(p.Sig, fmt.Sprintf("[%s max zip size %d] %s", w.Spec.ID, mz, p.What), caseReplay(c, map[string]any{"max_zip_used": mz}))
 			}
